@@ -11,6 +11,7 @@ from .common import (
     canon,
     derive_seed,
     digest,
+    evidence_dir,
     jdump,
     jload,
     load_known_findings,
@@ -21,7 +22,7 @@ from .common import (
 )
 from .procpool import Zygote, run_batch
 
-MIN_BUDGET = 250
+MIN_BUDGET = 400
 
 
 def _run_task(engine):
@@ -42,6 +43,8 @@ def _minimise_task(engine):
         scn, res = task["scenario"], task["result"]
         cls = engine.violation_class(res)
         tried = 0
+        t_start = wall()
+        max_wall = task.get("max_wall", 40.0)
         # make the schedule / fault trace explicit first, and check that it reproduces
         if hasattr(engine, "to_replay"):
             rs = engine.to_replay(scn, res)
@@ -53,10 +56,10 @@ def _minimise_task(engine):
                 return {"scenario": scn, "result": res, "minimised": False, "tried": tried,
                         "note": f"explicit trace did not reproduce (got {engine.violation_class(rr)})"}
         progress = True
-        while progress and tried < task.get("budget", MIN_BUDGET):
+        while progress and tried < task.get("budget", MIN_BUDGET) and wall() - t_start < max_wall:
             progress = False
             for cand in engine.candidates(scn):
-                if tried >= task.get("budget", MIN_BUDGET):
+                if tried >= task.get("budget", MIN_BUDGET) or wall() - t_start > max_wall:
                     break
                 tried += 1
                 try:
@@ -89,11 +92,30 @@ def run_check(engine, prop, tier, master_seed, tasks, workers, level="exploratio
     oks = [r[1] for r in results if r[0] == "ok"]
     viol = [r for r in oks if r["violations"]]
 
+    # ---- known findings: a listed finding must not mask another violation of the same run ----------
+    known = load_known_findings(prop)
+    needs_min = getattr(engine, "KEY_NEEDS_MINIMISATION", True)
+    stable = set(getattr(engine, "STABLE_KEY_FIELDS", ()))
+
+    def known_entry(scn, res, v, minimised):
+        key = engine.finding_key(scn, res, v)
+        for e in known:
+            if (minimised or not needs_min or set(e.get("key", {})) <= stable) and match_known(e, key):
+                return e
+        return None
+
+    def reorder(scn, res, minimised=False):
+        vs = res["violations"]
+        unknown_first = [v for v in vs if known_entry(scn, res, v, minimised) is None]
+        res["violations"] = unknown_first + [v for v in vs if v not in unknown_first]
+        return not unknown_first     # True: every violation of this run is a listed finding
+
     # ---- minimise (distinct preliminary keys first) ---------------------------------------------
     reports = []
     if viol:
         seen = {}
         for r in viol:
+            r["all_known"] = reorder(r["scenario"], r["result"])
             k = canon(engine.prelim_key(r["scenario"], r["result"]))
             seen.setdefault(k, []).append(r)
         order = []
@@ -101,9 +123,11 @@ def run_check(engine, prop, tier, master_seed, tasks, workers, level="exploratio
             order.append(seen[k][0])
         for k in sorted(seen):
             order.extend(seen[k][1:])
-        todo = order[:min_keep]
+        order.sort(key=lambda r: r["all_known"])     # runs with an unlisted violation get the minimiser first
+        todo = [r for r in order if not r["all_known"]][:min_keep] + [r for r in order if r["all_known"]][:2]
         mres, _ = run_batch(engine, _minimise_task(engine),
-                            [{"scenario": r["scenario"], "result": r["result"]} for r in todo],
+                            [{"scenario": r["scenario"], "result": r["result"],
+                              "max_wall": 40.0 if tier == "quick" else 180.0} for r in todo],
                             workers=workers, cfg={"run_timeout": 150.0, "ref_timeout": 90.0})
         for r, m in zip(todo, mres):
             if m[0] != "ok":
@@ -111,22 +135,22 @@ def run_check(engine, prop, tier, master_seed, tasks, workers, level="exploratio
                 reports.append({"seed": r["seed"], "scenario": r["scenario"], "result": r["result"], "minimised": False})
             else:
                 reports.append({"seed": r["seed"], **m[1], "original": r["scenario"]})
-        for r in order[min_keep:]:
+        for r in [x for x in order if not any(x is t for t in todo)]:
             reports.append({"seed": r["seed"], "scenario": r["scenario"], "result": r["result"], "minimised": False,
                             "unminimised_overflow": True})
 
     # ---- replay files, known findings ----------------------------------------------------------
-    known = load_known_findings(prop)
-    needs_min = getattr(engine, "KEY_NEEDS_MINIMISATION", True)
     known_hit = {}
     unknown = []
     tree = tree_fingerprint()
     for rep in reports:
+        all_known = reorder(rep["scenario"], rep["result"], rep.get("minimised", False))
         key = engine.finding_key(rep["scenario"], rep["result"])
         if not rep.get("minimised") and needs_min:
             key = {**key, "unminimised": True}
         rep["finding_key"] = key
-        hit = next((e for e in known if (rep.get("minimised") or not needs_min) and match_known(e, key)), None)
+        hit = known_entry(rep["scenario"], rep["result"], rep["result"]["violations"][0],
+                          rep.get("minimised", False)) if all_known else None
         if hit is not None and len(known_hit.get(hit["what"], [])) >= 3:
             known_hit[hit["what"]].append({"path": known_hit[hit["what"]][0]["path"]})
             continue   # enough replay files for this listed finding
@@ -162,8 +186,7 @@ def run_check(engine, prop, tier, master_seed, tasks, workers, level="exploratio
         "property_id": prop, "tier": tier, "seed": master_seed, "level": level, "coverage": cov,
         "assumptions": engine.ASSUMPTIONS, "wall_s": round(wall_s, 2), "violations": len(unknown),
     }
-    os.makedirs(os.path.join(os.path.dirname(os.path.dirname(os.path.abspath(__file__))), "evidence"), exist_ok=True)
-    jdump(ev, os.path.join(os.path.dirname(os.path.dirname(os.path.abspath(__file__))), "evidence", f"{prop}.json"))
+    jdump(ev, os.path.join(evidence_dir(), f"{prop}.json"))
 
     # ---- verdict -------------------------------------------------------------------------------
     print(f"[{prop}] tier={tier} seed={master_seed} runs={len(oks)} violating={len(viol)} "
@@ -213,6 +236,17 @@ def replay_file(engine, path):
     print(f"replayed {path}: violation class {got!r} differs from recorded {want!r}")
     print(f"VIOLATION property={prop} replay={path}")
     return EXIT_VIOLATION
+
+
+def run_digests(engine, tasks, workers):
+    """Per-run digests of everything a run reports (for schedsim this includes the hash of the complete
+    line-level event log); used by the determinism self-test."""
+    results, _ = run_batch(engine, _run_task(engine), [dict(t) for t in tasks], workers=workers,
+                           cfg={"run_timeout": 150.0, "ref_timeout": 90.0})
+    out = []
+    for r in results:
+        out.append(digest([r[1]["summary"], r[1]["violations"]]) if r[0] == "ok" else f"ERR:{r[0]}")
+    return out
 
 
 def seeds_for(master, label, n):
